@@ -7,7 +7,7 @@ ID = "C07"
 RULE = ("Generated bar-shaped episodes (3-10 timesteps with mixed gaps, 1-3 contracts among ETF / user spot (multiplier) / user margined / ES, or (one case in four) a FutureChain (ES, NK, ZN, VX) "
         "rolling over a last-trading date with every listed contract quoted, "
         "spreads {0, 0.1%, 2%}, +-10% moves, extra quotes inside and outside the latency window, fees, rate path, markup, latency, delay 0-2, "
-        "weights with gross leverage <= 2, reward in {simple, log, pnl, LogReturn(scale, clip, risk_aversion)}). Independent replay: the book at "
+        "weights with gross leverage <= 2, one non-chain case in four with a shock (a held contract gaps up x16-x40: one step's |log-return| > 2), reward in {simple, log, pnl, LogReturn(scale, clip, risk_aversion)}). Independent replay: the book at "
         "each execution is rebuilt from the INPUT stream with the timing model; a ledger replays recorded trades and interest and must reproduce "
         "entry time, prices, commissions, holdings, weights, context_pre/post NLV; interest is cross-checked with the closed form on the ledger's "
         "cash; rewards are recomputed; with no interest and zero latency simple returns must telescope; TrackRecord frames must equal the entries. "
@@ -31,6 +31,8 @@ def run(case):
         res.tag("latency>0")
     if stats["interest_nonzero"]:
         res.tag("interest")
+    if case.get("shock"):
+        res.tag("shock-step-multiplies-NLV")
     if case.get("second_episode"):
         res.tag("two-episodes-on-one-environment")
     if any(s["kind"] in ("umargin", "es") for s in case["contracts"]):
@@ -52,8 +54,29 @@ def cases(draw, tier="quick"):
         c["reward"] = draw(st.sampled_from([["simple"], ["log"], ["pnl"], ["logret", 0.01, 2.0, 0.1]]))
     else:
         c = draw(E.episode_cases(tier))
+        if draw(st.sampled_from([False, False, False, True])):
+            shock(draw, c)
     c["second_episode"] = draw(st.sampled_from([False, False, True]))    # a second episode on the same environment
     return c
+
+
+def shock(draw, c):
+    """One contract, held long, gaps up by a factor 16-40 and stays there: a single step multiplies the NLV by ~10
+    (|log-return| > 2, far outside the range where any scaled / clipped variant coincides with the plain one)."""
+    npts, n = len(c["bars"]), len(c["contracts"])
+    first = c["delay"] + 2
+    if first > npts - 1:
+        return
+    gi = draw(st.integers(first, npts - 1))
+    ci = draw(st.integers(0, n - 1))
+    f = draw(st.sampled_from([16.0, 40.0]))
+    for k in range(gi, npts):
+        c["bars"][k][ci][0] *= f
+    c["extras"] = [e for e in c["extras"] if not (e[2] == ci and e[0] >= gi - 1)]
+    for a in c["actions"]:
+        a[ci] = max(abs(a[ci]), 0.6)
+    c["reward"] = draw(st.sampled_from([["log"], ["log"], ["simple"], ["logret", 0.5, 1.0, 0.0], ["pnl"]]))
+    c["shock"] = [gi, ci, f]
 
 
 # ---------------------------------------------------------------------------------------- tabular rewards
